@@ -86,10 +86,10 @@ def write_evidence(prop, tier, seed, rep, wall, violations, known_hit, extra_exp
             'samples': samples or [{'note': 'no instances'}],
             'tables': rep.tables if rep else {},
             'checker_cmd': './check %s --tier %s' % (prop, tier),
-            'trusted_base': ['rustc nightly mir_promoted MIR (opt-level 0, overflow checks on)', 'rules/*.py', 'spec/*.json tables transcribed from the OASIS MQTT 3.1.1 / 5.0 texts', 'extern-effect table in rules/extern.py (read from ntex-bytes/ntex-io/ntex-util/std sources)'],
+            'trusted_base': ['rustc nightly mir_promoted MIR (opt-level 0, overflow checks on)', 'rules/*.py', 'spec/*.json tables transcribed from the OASIS MQTT 3.1.1 / 5.0 texts', 'the summaries of dependency calls written into the rule modules (panic conditions of Buf/BytesMut reads in bufflow.py and panics.py, write/consume call name tables in c08.py/sizeflow.py/exhaust.py), read from the ntex-bytes / ntex-io / ntex-util / std sources pinned by Cargo.lock'],
             'exhaustive': True,
         },
-        'assumptions': (rep.assumptions if rep else []) + ['dependencies behave as summarised in rules/extern.py', 'cfg(test) code is not analysed'],
+        'assumptions': (rep.assumptions if rep else []) + ['dependency calls (ntex-bytes, ntex-io, ntex-util, std) behave as summarised in the rule modules', 'cfg(test) code is not analysed'],
         'wall_s': round(wall, 2),
         'violations': len(violations),
         'report': {
